@@ -13,7 +13,7 @@ from ..values import SInt
 
 PROPERTY = "C17"
 MODULES = ["mesh"]
-FUNCTIONS = ["mesh.save_mesh_as_precomputed", "mesh.read_precomputed_mesh", "mesh.affine_transform_mesh",
+FUNCTIONS = ["mesh.save_mesh_as_neuroglancer_vtk", "mesh.save_mesh_as_precomputed", "mesh.read_precomputed_mesh", "mesh.affine_transform_mesh",
              "scripts.mesh_to_precomputed.mesh_file_to_precomputed", "scripts.link_mesh_fragments.make_mesh_fragment_links"]
 STUBS = ["np -> NPProxy; struct -> StructProxy; file objects -> in-memory symbolic byte streams",
          "float32 vertices that are only moved are opaque 32-bit patterns (bit-exact round trip incl. NaN and -0)",
@@ -27,7 +27,8 @@ EXPLANATION = ("Vertices, triangle indices and every byte offered to the reader 
 BOUNDS = {"quick": "N in 0..3 vertices, M in 0..2 triangles (all values); reader: every byte string of every length 0..44; "
                    "affine: all real 3x4 / 4x4 matrices, one arbitrary triangle and reference point",
           "thorough": "reader lengths up to 64; N<=4, M<=3"}
-OUTSIDE = ["VTK ASCII export (np.savetxt float formatting)", "GIfTI parsing (nibabel)", "near-zero float determinants",
+OUTSIDE = ["VTK export: the digits np.savetxt's '%.9g' produces for a float (each finite value is one number token), non-finite values, "
+           "titles containing carriage returns / Unicode line separators, attributes with more than 4 components", "GIfTI parsing (nibabel)", "near-zero float determinants",
            "mm->nm scaling when 10^6 * coordinate is not exactly representable in float32 (float rounding)"]
 
 
@@ -46,6 +47,10 @@ def configs(tier, seed):
     for N, e in ((1, 0), (2, -2), (3, 3)):
         out.append(dict(harness="mm_to_nm", N=N, e=e, cost=1))
     out.append(dict(harness="fragments", cost=1))
+    for N, M, A in ((0, 0, 1), (1, 1, 2), (2, 1, 3), (3, 2, 3)) + (((4, 3, 4),) if tier == "thorough" else ()):
+        out.append(dict(harness="vtk", N=N, M=M, A=A, cost=2 + A, none_attrs=(N == 1)))
+    out.append(dict(harness="vtk", N=2, M=2, A=1, tdtype="uint32", cost=2))
+    out.append(dict(harness="vtk", N=1, M=1, A=1, sym_title=True, cost=3))
     return out
 
 
@@ -254,6 +259,81 @@ def H_mm_to_nm(ctx, cfg):
     ctx.prove(z3.And(conds), "stored-vertex-is-10^6-times-the-input-vertex")
 
 
+def H_vtk(ctx, cfg):
+    """VTK export: the text written for an arbitrary attribute set parses with Neuroglancer's grammar and
+    carries exactly the vertices, triangles and attribute values given."""
+    from . import _vtk as K
+    N, M = cfg["N"], cfg["M"]
+    mesh = _mods()
+    verts = SArray.fresh((N, 3), "float32", "v")
+    tris = SArray.fresh((M, 3), cfg.get("tdtype", "int32"), "t")
+    tri_terms = [e.to_sint("int").e for e in tris.a.ravel()]
+    for t in tri_terms:
+        ctx.assume(z3.And(t >= 0, t < N))            # triangles index existing vertices
+    ctx.input("tris", tri_terms)
+    # attribute set: symbolic number of attributes (0..A), each of a symbolic shape kind
+    #   kind 0: (N,)   kind 1..4: (N, kind)
+    na = z3.Int("n_attributes")
+    ctx.assume(z3.And(na >= 0, na <= cfg["A"]))
+    n_attr = ctx.concretize(na)
+    kinds, attrs, expect = [], [], []
+    for i in range(n_attr):
+        kv = z3.Int(f"kind_{i}")
+        ctx.assume(z3.And(kv >= 0, kv <= 4))
+        kd = ctx.concretize(kv)
+        kinds.append(kd)
+        shape = (N,) if kd == 0 else (N, kd)
+        vals = SArray.fresh(shape, "float32", f"a{i}_")
+        attrs.append({"name": f"attr{i}", "values": vals})
+        expect.append((f"attr{i}", max(kd, 1), list(vals.a.ravel())))
+    ctx.input("kinds", kinds)
+    L = z3.Int("title_len")
+    ctx.input("title_len", L)
+    if cfg.get("sym_title"):
+        ctx.assume(z3.And(L >= 0, L <= 400))
+        title = K.SymText([K.TextSeg("title", L)])
+    else:
+        ctx.assume(L == 4)
+        title = "mesh"
+    out = K.TextStream()
+    use_none = n_attr == 0 and cfg.get("none_attrs", False)
+    try:
+        mesh.save_mesh_as_neuroglancer_vtk(out, verts, tris, vertex_attributes=None if use_none else attrs, title=title)
+    except AssertionError as e:
+        ctx.fail("writer-accepts-valid-input", detail=f"AssertionError {e}", exc=e)
+        return
+    ctx.sample(dict(N=N, M=M, kinds=kinds, parts=len(out.parts)))
+    try:
+        got = K.parse_vtk(ctx, out.parts)
+    except K.VTKParseError as e:
+        ctx.fail("export-parses-with-the-neuroglancer-grammar", detail=str(e))
+        return
+    ctx.prove(got["num_vertices"] == N, "vertex-count")
+    ok_pts = len(got["points"]) == 3 * N and all(isinstance(tk, K.FloatTok) for tk in got["points"])
+    ctx.prove(ok_pts and z3.And([elem_eq(tk.elem, e) for tk, e in zip(got["points"], verts.a.ravel())]),
+              "points-are-the-vertices-in-order")
+    flat = [x for tr in got["triangles"] for x in tr]
+    ctx.prove(len(got["triangles"]) == M and z3.And([(x == t) if not isinstance(x, int) else (t == x) for x, t in zip(flat, tri_terms)]),
+              "faces-are-the-triangles-in-order")
+    ctx.prove([(n, c) for n, c, _ in got["attributes"]] == [(n, c) for n, c, _ in expect],
+              "attribute-names-and-component-counts", detail=str([(n, c) for n, c, _ in got["attributes"]]))
+    for (n, c, toks), (_, _, vals) in zip(got["attributes"], expect):
+        okv = len(toks) == len(vals) and all(isinstance(tk, K.FloatTok) for tk in toks)
+        ctx.prove(okv and z3.And([elem_eq(tk.elem, e) for tk, e in zip(toks, vals)]), f"attribute-values-{n}")
+    # title line: at most 255 characters, starts with the given title (truncated)
+    tl = got["title_line"]
+    if not cfg.get("sym_title"):
+        ctx.prove("".join(map(str, tl)).startswith("mesh. ") and len(tl) <= 255, "title-line-starts-with-the-title")
+        return
+    tot = z3.IntVal(0)
+    for fr in tl:
+        tot = tot + (fr.length if isinstance(fr, K.TextSeg) else 1)
+    ctx.prove(tot <= 255, "title-line-at-most-255-characters")
+    first = tl[0] if tl else None
+    ctx.prove(z3.Implies(L > 0, z3.BoolVal(isinstance(first, K.TextSeg)) if not isinstance(first, K.TextSeg)
+                         else first.length == z3.If(L <= 255, L, 255)), "title-line-starts-with-the-title")
+
+
 def H_fragments(ctx, cfg):
     """link-mesh-fragments: one JSON file per label listing exactly the fragments given (enumerated tables)."""
     from . import _vol as V
@@ -356,6 +436,42 @@ def replay(cfg, cex):
                 return True, f"mesh conversion failed: {type(exc).__name__}: {exc}"
             want = (pts.astype(real_np.float64) * 1e6).astype(real_np.float32)
             return (not real_np.array_equal(v, want)), f"stored vertices {v.ravel().tolist()} for input {pts.ravel().tolist()} mm (expected x 10^6)"
+    if h == "vtk":
+        import io
+        from . import _vtk as K
+        N, M = cfg["N"], cfg["M"]
+        kinds = inp["kinds"]
+        verts = (real_np.arange(N * 3, dtype=real_np.float32).reshape(N, 3) + 0.25) * real_np.float32(-1.5)
+        tris = real_np.array(inp["tris"], dtype=cfg.get("tdtype", "int32")).reshape(M, 3)
+        attrs, expect = [], []
+        for i, kd in enumerate(kinds):
+            shape = (N,) if kd == 0 else (N, kd)
+            vals = (real_np.arange(N * max(kd, 1), dtype=real_np.float32).reshape(shape) + 100 * (i + 1)) / real_np.float32(3)
+            attrs.append({"name": f"attr{i}", "values": vals})
+            expect.append((f"attr{i}", max(kd, 1), [float(x) for x in vals.ravel()]))
+        f = io.StringIO()
+        try:
+            mesh.save_mesh_as_neuroglancer_vtk(f, verts, tris, vertex_attributes=(None if not kinds and cfg.get("none_attrs") else attrs),
+                                               title="t" * int(inp["title_len"]))
+        except AssertionError as e:
+            return True, f"writer refused valid input: AssertionError {e}"
+        text = f.getvalue()
+        try:
+            got = K.parse_vtk(None, [text])
+        except K.VTKParseError as e:
+            return True, f"attributes of shapes {[(N,) if k == 0 else (N, k) for k in kinds]}: export does not parse: {e}"
+        f32 = lambda xs: [float(real_np.float32(x)) for x in xs]
+        if got["num_vertices"] != N or f32(got["points"]) != [float(x) for x in verts.ravel()]:
+            return True, f"parsed points {got['points']} differ from the vertices"
+        if got["triangles"] != tris.tolist():
+            return True, f"parsed faces {got['triangles']} differ from {tris.tolist()}"
+        pa = [(n, c, f32(v)) for n, c, v in got["attributes"]]
+        if pa != expect:
+            return True, f"parsed attributes {pa} differ from {expect}"
+        tl = text.split("\n")[1]
+        if len(tl) > 255 or not tl.startswith("t" * min(255, int(inp["title_len"]))):
+            return True, f"title line {tl!r} (length {len(tl)})"
+        return False, "VTK export parses and carries the input on the real code"
     if h == "fragments":
         import json as _json
         import os
